@@ -77,6 +77,15 @@ class Run:
         cmd.append("./cmd/wsverif")
         t = time.time()
         p = subprocess.run(cmd, cwd=HARNESS, env=env, capture_output=True, text=True)
+        if p.returncode != 0 and "verif_export.go" in (p.stdout + p.stderr) and tags == "verif":
+            # the guarded hook file does not compile against this tree (an internal field it projects
+            # was renamed or removed): build without it; struct-level comparisons are then skipped
+            # and every verdict rests on behaviour observed through the exported API
+            log("HOOKS-OFF: wsutil/verif_export.go does not compile against the tree under test; "
+                "checking without struct-level projections")
+            self.extra["hooks_off"] = True
+            cmd[cmd.index("-tags") + 1] = "verif_nohooks"
+            p = subprocess.run(cmd, cwd=HARNESS, env=env, capture_output=True, text=True)
         if p.returncode != 0:
             raise Infra("harness build failed:\n" + p.stdout + p.stderr)
         self.extra.setdefault("build_s", round(time.time() - t, 1))
